@@ -343,7 +343,14 @@ def r20b(P, R):
             if "CurDir" in made or "." in lits or "./" in lits:
                 curdir_pushes.append((i, x))
     inits = [lit_value(y) for x in relative.walk() if x.get("k") == "Call" and (call_name(x) or "").endswith(("PathBuf::from", "Path::new")) for y in subnodes(x) if y.get("k") == "Lit"]
-    if not curdir_pushes and not any(v in (".", "./") for v in inits):
+    # any other construction of `.` outside the ups table (e.g. `iter::once(Component::CurDir)` chained in front)
+    table_nodes = set(id(y) for y in subnodes(table)) if table is not None else set()
+    other_curdir = [y for y in relative.walk() if y.get("k") == "Path" and norm(y.get("def") or "").endswith("Component::CurDir")
+                    and y.get("dk", "").startswith("Ctor") and id(y) not in table_nodes]
+    other_curdir = [y for y in other_curdir if not any(id(y) in set(id(z) for z in subnodes(x["args"][0])) for _, x in curdir_pushes)]
+    if not curdir_pushes and other_curdir:
+        R.undecided("R20-b", "leading-dot", "`.` is produced outside a push onto the result; the prefix rule was not recognised", loc=loc)
+    elif not curdir_pushes and not any(v in (".", "./") for v in inits):
         R.violated("R20-b", "leading-dot", "relative_path never emits a leading `./`: a target in the same or a deeper directory yields "
                    "`sub/x.js`, which import specifiers and `#import` treat as a package name, not a relative path", loc=loc)
     for i, x in curdir_pushes:
